@@ -93,7 +93,9 @@ const (
 	stKeyedClear
 )
 
-func (s c09State) String() string { return [...]string{"nokey", "encrypting", "keyed-not-encrypting"}[s] }
+func (s c09State) String() string {
+	return [...]string{"nokey", "encrypting", "keyed-not-encrypting"}[s]
+}
 
 func c09Stream(st c09State, b *netsim.Buf) *stream.Stream {
 	s := stream.NewStream(b)
@@ -288,7 +290,7 @@ func containsAttr(b []byte, lowName string) bool {
 func C09Plan() *vlib.Plan {
 	p := &vlib.Plan{
 		Property: "C09", Level: "exploration",
-		Rule: "E-ENUM full product: every case variant of the 6 fixed private names (all 2^n variants for names <= 8 letters, lower/upper/single-letter flips otherwise) and of the _condor_priv prefix x suffixes {'',X,_key}, x all 64 option-bit sets x 4 whitelist shapes (none, public only, naming the private name, naming it in another case) x 6 peer versions x 3 stream states; ad also holds near-miss public names. Oracle: independent search of wire bytes and of their reference decryption for the private name and a unique canary; real receiver in the same state must rebuild the filtered ad and stay in sync (sentinel). Non-trivial = every combo (each serialises an ad holding a private attribute).",
+		Rule:   "E-ENUM full product: every case variant of the 6 fixed private names (all 2^n variants for names <= 8 letters, lower/upper/single-letter flips otherwise) and of the _condor_priv prefix x suffixes {'',X,_key}, x all 64 option-bit sets x 4 whitelist shapes (none, public only, naming the private name, naming it in another case) x 6 peer versions x 3 stream states; ad also holds near-miss public names. Oracle: independent search of wire bytes and of their reference decryption for the private name and a unique canary; real receiver in the same state must rebuild the filtered ad and stay in sync (sentinel). Non-trivial = every combo (each serialises an ad holding a private attribute).",
 		Assume: []string{"reference decryption by refcodec; canary strings are unique 10+ character tokens"},
 	}
 	p.Gen = func(tier string, yield func(vlib.Case)) {
